@@ -141,6 +141,7 @@ PROPS = {
                  "concurrent calls on the real IPDB checked against all sequential orders.",
         "props": ["C09"],
         "streams": [{"test": "TestSrvConc", "names": ["srvconc"], "timeout": 300}, {"test": "TestDbConc", "names": ["dbconc"], "timeout": 300},
+                    {"test": "TestCfgOptions", "names": ["cfgopts"], "timeout": 300},
                     {"test": "TestSrvConc", "names": ["srvconc-race"], "timeout": 300, "race": True, "env": {"HX_N": "16", "HX_SUFFIX": "-race"},
                      "env_thorough": {"HX_N": "600"}},
                     {"test": "TestDbConc", "names": ["dbconc-race"], "timeout": 300, "race": True, "env": {"HX_N": "300", "HX_SUFFIX": "-race"},
